@@ -180,6 +180,10 @@ type ExecutionPayloadHeader struct {
 }
 
 func (s *ExecutionPayloadHeader) View() *ExecutionPayloadHeaderView {
+	// The fixed-size fields become leaves of the view's tree by pointer:
+	// take them from a private copy, so that the tree does not alias the caller's struct.
+	c := *s
+	s = &c
 	ed, err := s.ExtraData.View()
 	if err != nil {
 		panic(err)
